@@ -38,6 +38,10 @@ pub enum POut {
     Err,
     Panic,
     Slow(u16),
+    /// ask for the whole batch to be retried (needs hook H1 to shorten the back-off)
+    RetrySame,
+    /// ask for all but the first item to be retried
+    RetryTail,
 }
 
 #[derive(Serialize, Deserialize, Debug, Clone)]
@@ -70,6 +74,10 @@ struct FlushRec {
 struct BatchRec {
     items: Vec<u64>,
     ticket_ret: u64,
+    /// false for a re-delivery of exactly the remainder the processor returned
+    first: bool,
+    /// items whose final attempt this was (everything not in a remainder that will be retried)
+    finals: Vec<u64>,
 }
 
 struct Latch {
@@ -102,6 +110,7 @@ pub struct Outcome7 {
     pub delivered: usize,
     pub accepted: usize,
     pub multi_item_batches: usize,
+    pub retries: usize,
 }
 
 fn sample(sender: &Sender<Ch>) -> crate::e2::M {
@@ -146,9 +155,17 @@ pub fn run(w: &Workload) -> Outcome7 {
     let calls = Arc::new(AtomicUsize::new(0));
     let mut fails: Vec<(Prop, Fail)> = Vec::new();
 
+    // hook H1: divide the 700 ms … 10 s back-off (and the idle delay) so retries cost microseconds
+    emit_batcher::verif::set_delay_divisor(4000);
+    let retry_fails: Arc<Mutex<Vec<Fail>>> = Arc::new(Mutex::new(Vec::new()));
     let process = {
-        let (seq, batches, latch, calls) = (seq.clone(), batches.clone(), latch.clone(), calls.clone());
-        let outcomes = if w.outcomes.is_empty() { vec![POut::Ok] } else { w.outcomes.clone() };
+        let (seq, batches, latch, calls, retry_fails) = (seq.clone(), batches.clone(), latch.clone(), calls.clone(), retry_fails.clone());
+        let mut outcomes = if w.outcomes.is_empty() { vec![POut::Ok] } else { w.outcomes.clone() };
+        if outcomes.iter().all(|o| matches!(o, POut::RetrySame | POut::RetryTail)) {
+            // keep every batch within its retry budget: the script must contain a terminal outcome
+            outcomes.push(POut::Ok);
+        }
+        let mut expected: Option<Vec<u64>> = None;
         move |batch: Ch| -> Result<(), BatchError<Ch>> {
             let n = calls.fetch_add(1, Ordering::SeqCst);
             {
@@ -157,16 +174,51 @@ pub fn run(w: &Workload) -> Outcome7 {
                     open = latch.cv.wait(open).unwrap();
                 }
             }
+            let first = match expected.take() {
+                Some(e) if e == batch => false,
+                Some(e) => {
+                    if batch.iter().any(|x| e.contains(x)) {
+                        retry_fails.lock().unwrap().push(Fail::new(
+                            "C06/retry-is-not-the-remainder",
+                            format!("processor returned remainder {e:?} but was re-invoked with {batch:?}"),
+                        ));
+                    } else {
+                        retry_fails.lock().unwrap().push(Fail::new(
+                            "C06/remainder-never-redelivered",
+                            format!("processor returned remainder {e:?} within its retry budget but the next batch is {batch:?}"),
+                        ));
+                    }
+                    true
+                }
+                None => true,
+            };
             let out = outcomes[n % outcomes.len()];
             if let POut::Slow(k) = out {
                 spin(k);
             }
+            let rem: Option<Vec<u64>> = match out {
+                POut::RetrySame => Some(batch.clone()),
+                POut::RetryTail => Some(batch[1.min(batch.len())..].to_vec()),
+                _ => None,
+            };
+            let rem = rem.filter(|r| !r.is_empty());
+            let finals: Vec<u64> = match &rem {
+                Some(r) => batch.iter().filter(|x| !r.contains(x)).copied().collect(),
+                None => batch.clone(),
+            };
             let t = seq.fetch_add(1, Ordering::SeqCst);
-            batches.lock().unwrap().push(BatchRec { items: batch, ticket_ret: t });
+            batches.lock().unwrap().push(BatchRec { items: batch, ticket_ret: t, first, finals });
             match out {
                 POut::Ok | POut::Slow(_) => Ok(()),
                 POut::Err => Err(BatchError::no_retry(std::io::Error::new(std::io::ErrorKind::Other, "scripted"))),
                 POut::Panic => panic!("scripted processor panic"),
+                POut::RetrySame | POut::RetryTail => match rem {
+                    Some(r) => {
+                        expected = Some(r.clone());
+                        Err(BatchError::retry(std::io::Error::new(std::io::ErrorKind::Other, "scripted retry"), r))
+                    }
+                    None => Err(BatchError::no_retry(std::io::Error::new(std::io::ErrorKind::Other, "scripted"))),
+                },
             }
         }
     };
@@ -324,7 +376,16 @@ pub fn run(w: &Workload) -> Outcome7 {
     let mut seen: HashSet<u64> = HashSet::new();
     let mut ret_ticket: HashMap<u64, u64> = HashMap::new();
     let mut last_per_sender: HashMap<u64, u64> = HashMap::new();
+    for f in retry_fails.lock().unwrap().drain(..) {
+        fails.push((Prop::C06, f));
+    }
     for b in &batches {
+        for x in &b.finals {
+            ret_ticket.insert(*x, b.ticket_ret);
+        }
+        if !b.first {
+            continue;
+        }
         if b.items.is_empty() {
             fails.push((Prop::C06, Fail::new("C06/empty-batch", "processor invoked with an empty batch".to_string())));
         }
@@ -335,7 +396,6 @@ pub fn run(w: &Workload) -> Outcome7 {
             if !accepted.contains_key(x) {
                 fails.push((Prop::C06, Fail::new("C06/item-never-accepted", format!("item {x:#x} delivered but its send did not report acceptance"))));
             }
-            ret_ticket.insert(*x, b.ticket_ret);
             let (s, n) = (x >> 32, x & 0xffff_ffff);
             let last = last_per_sender.entry(s).or_insert(0);
             if n <= *last {
@@ -395,7 +455,8 @@ pub fn run(w: &Workload) -> Outcome7 {
     Outcome7 {
         fails,
         truncated,
-        batches: batches.len(),
+        batches: batches.iter().filter(|b| b.first).count(),
+        retries: batches.iter().filter(|b| !b.first).count(),
         flush_true: flushes.iter().filter(|f| f.ok).count(),
         handed_back,
         delivered: seen.len(),
@@ -423,7 +484,7 @@ pub fn workload(stall_weight: u32) -> impl Strategy<Value = Workload> {
             any::<bool>(),
             prop::collection::vec(prop::collection::vec(sop(stall), 1..40), 1..=6),
             prop::collection::vec(
-                prop_oneof![6 => Just(POut::Ok), 2 => Just(POut::Err), 1 => Just(POut::Panic), 2 => (0u16..5000).prop_map(POut::Slow)],
+                prop_oneof![6 => Just(POut::Ok), 2 => Just(POut::Err), 1 => Just(POut::Panic), 2 => (0u16..5000).prop_map(POut::Slow), 2 => Just(POut::RetrySame), 1 => Just(POut::RetryTail)],
                 1..5,
             ),
         )
@@ -442,6 +503,7 @@ pub fn check(w: &Workload, which: Prop, cx: &mut Cx) -> vcore::Res {
     cx.class_if(w.senders.len() >= 2, "e7:senders>=2");
     cx.class_if(out.multi_item_batches > 0, "e7:multi-item-batch");
     cx.class_if(w.outcomes.iter().any(|o| matches!(o, POut::Panic | POut::Err)), "e7:failing-processor");
+    cx.class_if(out.retries > 0, "e7:retry");
     cx.nontrivial(match which {
         Prop::C06 => w.senders.len() >= 2 && out.batches >= 2,
         Prop::C07 => out.flush_true > 0 && out.batches >= 1,
